@@ -13,7 +13,7 @@ REPO = os.environ.get("VERIF_REPO", "/repo")
 WORK = os.path.join(VERIF, "work")
 QFLAGS = ["-Q", "lib", "FT.lib", "-Q", "gen", "FT.gen", "-Q", "model", "FT.model",
           "-Q", "proofs", "FT.proofs", "-Q", "props", "FT.props"]
-GEN_MODULES = ["Flags", "Effects", "Common", "Interp2d", "Interp3d", "Vinterp2d", "Vinterp3d", "FteikCommon",
+GEN_MODULES = ["Flags", "Effects", "ApiGen", "Common", "Interp2d", "Interp3d", "Vinterp2d", "Vinterp3d", "FteikCommon",
                "Fteik2d", "Fteik3d", "Ray2d", "Ray3d"]
 
 STD_AXIOMS = {
@@ -56,6 +56,10 @@ def regen():
         status = json.load(open(os.path.join(COQ, "gen", "status.json")))
     except (OSError, ValueError):
         status = {m: {"ok": False, "error": "translator crashed: " + out[-500:]} for m in GEN_MODULES}
+    # API layer (_base.py, _grid.py, _solver.py): fail-closed extraction of the arithmetic and the argument wiring
+    rc3, out3 = sh([sys.executable, os.path.join(VERIF, "tools", "py2coq", "apigen.py"),
+                    "--pkg", os.path.join(REPO, "fteikpy"), "--out", os.path.join(COQ, "gen")])
+    status["ApiGen"] = {"ok": True} if rc3 == 0 else {"ok": False, "error": (out3.strip().splitlines() or ["apigen failed"])[-1][-400:]}
     status["Flags"] = {"ok": os.path.exists(os.path.join(COQ, "gen", "Flags.v"))}
     status["Effects"] = {"ok": rc2 == 0, "error": out2[-400:]} if rc2 != 0 else {"ok": True}
     return status
